@@ -27,9 +27,9 @@ pub fn c15_domain_errors() {
 uf_tf!(T_LN, 2, fn uf_ln<>(x: TwoFloat) -> TwoFloat, key = k2(x));
 
 //@ id=C15 tier=quick to=1200 cfg=std exh=1 stub=1 stubs="TwoFloat::ln -> recording UF, &TwoFloat/&TwoFloat -> recording UF" desc="log(x,b) is bit-identical to x.ln()/b.ln() and log10(x) to x.ln()/LN_10 (LN_10 words checked against mpmath) for ALL x, b and every pure function in place of ln and of the division"
-#[cfg_attr(kani, kani::proof)]
-#[cfg_attr(kani, kani::stub(twofloat::TwoFloat::ln, uf_ln))]
-#[cfg_attr(kani, kani::stub(<&twofloat::TwoFloat as core::ops::Div<&twofloat::TwoFloat>>::div, crate::uf::uf_div_tt))]
+#[cfg_attr(all(kani, feature = "stubs"), kani::proof)]
+#[cfg_attr(all(kani, feature = "stubs"), kani::stub(twofloat::TwoFloat::ln, uf_ln))]
+#[cfg_attr(all(kani, feature = "stubs"), kani::stub(<&twofloat::TwoFloat as core::ops::Div<&twofloat::TwoFloat>>::div, crate::uf::uf_div_tt))]
 pub fn c15_log_structure() {
     let x = any_tf();
     let b = any_tf();
@@ -73,19 +73,19 @@ pub fn c15_exact_points() {
 }
 
 //@ id=C15 tier=quick to=1800 cfg=std exh=1 stub=1 unwind=16 stubs="TwoFloat::exp, exp2, exp_m1 -> havoc (their totality on valid input is C14); DW operator impls -> havoc" desc="ln, ln_1p, log2 contain no panic site of their own: for ALL arguments they return provided exp/exp2/exp_m1 return (i.e. no panic provided the Newton iterates are valid - the iterates' validity is numerical analysis that is not encoded)"
-#[cfg_attr(kani, kani::proof)]
-#[cfg_attr(kani, kani::unwind(16))]
-#[cfg_attr(kani, kani::stub(twofloat::TwoFloat::exp, crate::uf::havoc_unary))]
-#[cfg_attr(kani, kani::stub(twofloat::TwoFloat::exp2, crate::uf::havoc_unary))]
-#[cfg_attr(kani, kani::stub(twofloat::TwoFloat::exp_m1, crate::uf::havoc_unary))]
-#[cfg_attr(kani, kani::stub(<&twofloat::TwoFloat as core::ops::Mul<&twofloat::TwoFloat>>::mul, crate::uf::havoc_tt))]
-#[cfg_attr(kani, kani::stub(<&twofloat::TwoFloat as core::ops::Add<&twofloat::TwoFloat>>::add, crate::uf::havoc_tt))]
-#[cfg_attr(kani, kani::stub(<&twofloat::TwoFloat as core::ops::Sub<&twofloat::TwoFloat>>::sub, crate::uf::havoc_tt))]
-#[cfg_attr(kani, kani::stub(<&twofloat::TwoFloat as core::ops::Div<&twofloat::TwoFloat>>::div, crate::uf::havoc_tt))]
-#[cfg_attr(kani, kani::stub(<&twofloat::TwoFloat as core::ops::Add<&f64>>::add, crate::uf::havoc_tf64))]
-#[cfg_attr(kani, kani::stub(<&twofloat::TwoFloat as core::ops::Sub<&f64>>::sub, crate::uf::havoc_tf64))]
-#[cfg_attr(kani, kani::stub(<twofloat::TwoFloat as core::ops::AddAssign<&twofloat::TwoFloat>>::add_assign, crate::uf::havoc_assign_t))]
-#[cfg_attr(kani, kani::stub(<twofloat::TwoFloat as core::ops::SubAssign<&twofloat::TwoFloat>>::sub_assign, crate::uf::havoc_assign_t))]
+#[cfg_attr(all(kani, feature = "stubs"), kani::proof)]
+#[cfg_attr(all(kani, feature = "stubs"), kani::unwind(16))]
+#[cfg_attr(all(kani, feature = "stubs"), kani::stub(twofloat::TwoFloat::exp, crate::uf::havoc_unary))]
+#[cfg_attr(all(kani, feature = "stubs"), kani::stub(twofloat::TwoFloat::exp2, crate::uf::havoc_unary))]
+#[cfg_attr(all(kani, feature = "stubs"), kani::stub(twofloat::TwoFloat::exp_m1, crate::uf::havoc_unary))]
+#[cfg_attr(all(kani, feature = "stubs"), kani::stub(<&twofloat::TwoFloat as core::ops::Mul<&twofloat::TwoFloat>>::mul, crate::uf::havoc_tt))]
+#[cfg_attr(all(kani, feature = "stubs"), kani::stub(<&twofloat::TwoFloat as core::ops::Add<&twofloat::TwoFloat>>::add, crate::uf::havoc_tt))]
+#[cfg_attr(all(kani, feature = "stubs"), kani::stub(<&twofloat::TwoFloat as core::ops::Sub<&twofloat::TwoFloat>>::sub, crate::uf::havoc_tt))]
+#[cfg_attr(all(kani, feature = "stubs"), kani::stub(<&twofloat::TwoFloat as core::ops::Div<&twofloat::TwoFloat>>::div, crate::uf::havoc_tt))]
+#[cfg_attr(all(kani, feature = "stubs"), kani::stub(<&twofloat::TwoFloat as core::ops::Add<&f64>>::add, crate::uf::havoc_tf64))]
+#[cfg_attr(all(kani, feature = "stubs"), kani::stub(<&twofloat::TwoFloat as core::ops::Sub<&f64>>::sub, crate::uf::havoc_tf64))]
+#[cfg_attr(all(kani, feature = "stubs"), kani::stub(<twofloat::TwoFloat as core::ops::AddAssign<&twofloat::TwoFloat>>::add_assign, crate::uf::havoc_assign_t))]
+#[cfg_attr(all(kani, feature = "stubs"), kani::stub(<twofloat::TwoFloat as core::ops::SubAssign<&twofloat::TwoFloat>>::sub_assign, crate::uf::havoc_assign_t))]
 pub fn c15_no_own_panic() {
     let x = any_valid();
     let _ = x.ln();
